@@ -6,11 +6,11 @@
   denotes).  `Ring.WF` (len ≤ max ∧ off ≤ max) is the representation invariant.
 
   Every theorem holds for ALL rings (any capacity, offset, fill, wrapped or not), all operands, all
-  histories.  Proved: crop, get, set, push, unshift, pop, shift (ok + refusal cases, memory bounds) and
-  the history theorem over these operations.  Stated but not proved (correspondence only): align, resize,
-  prepare, find, string — see the `_statement` definitions at the end.
+  histories.  Proved: crop, get, set, push, unshift, pop, shift, align (incl. the 1024-byte block
+  rotation of mpt_memrev), resize, string (ok + refusal cases, memory bounds), the history theorem over
+  these operations, and prepare.  Stated but not proved (correspondence only): find — see `find_statement`.
 -/
-import MptModel.Lemmas.Ring2
+import MptModel.Lemmas.Ring3
 
 namespace Mpt.C13
 open Mpt Mpt.Ring
@@ -24,6 +24,9 @@ inductive Op where
   | crop (pos n : Nat)
   | set (pos : Nat) (bs : List Byte)
   | get (pos n : Nat)
+  | align (pos : Nat)
+  | resize (n : Nat)
+  | string
   deriving Repr
 
 /-- observable outcome of one operation -/
@@ -49,34 +52,45 @@ def stepM (r : Ring) : Op → Ring × Out
     | .ok (r', _) => (r', .ok []) | .err _ => (r, .refused) | .null => (r, .refused) | _ => (r, .bad)
   | .get pos n => match r.get pos n true with
     | .ok (_, out) => (r, .ok out) | .err _ => (r, .refused) | .null => (r, .refused) | _ => (r, .bad)
+  | .align pos => match r.align pos with
+    | .ok r' => (r', .ok []) | .err _ => (r, .refused) | .null => (r, .refused) | _ => (r, .bad)
+  | .resize n => match r.resize n true with
+    | .ok r' => (r', .ok []) | .err _ => (r, .refused) | .null => (r, .refused) | _ => (r, .bad)
+  | .string => match r.string with
+    | .ok (r', out) => (r', .ok out) | .err _ => (r, .refused) | .null => (r, .refused) | _ => (r, .bad)
 
-/-- S: the same operation on a plain byte list with capacity `cap`.  Requests for more than is stored or
-    free are refused; a zero-length push onto a completely full queue is refused as well (the content is
-    the same either way). -/
-def stepS (cap : Nat) (d : List Byte) : Op → List Byte × Out
-  | .push bs => if d.length < cap ∧ bs.length ≤ cap - d.length then (d ++ bs, .ok []) else (d, .refused)
-  | .unshift bs => if d.length < cap ∧ bs.length ≤ cap - d.length then (bs ++ d, .ok []) else (d, .refused)
-  | .pop n => if n ≤ d.length then (d.take (d.length - n), .ok (d.drop (d.length - n))) else (d, .refused)
-  | .shift n => if n ≤ d.length then (d.drop n, .ok (d.take n)) else (d, .refused)
-  | .crop pos n => if pos + n ≤ d.length then (d.take pos ++ d.drop (pos + n), .ok []) else (d, .refused)
+/-- S: the same operation on a plain byte list with capacity `cap` (state = capacity and content).
+    Requests for more than is stored or free are refused; a zero-length push onto a completely full queue
+    is refused as well (the content is the same either way).  `resize` sets the capacity and keeps the
+    newest `n` bytes (queue_resize.c: "remove data from queue start"); `string` needs one free byte for
+    the terminator. -/
+def stepS (cap : Nat) (d : List Byte) : Op → (Nat × List Byte) × Out
+  | .push bs => if d.length < cap ∧ bs.length ≤ cap - d.length then ((cap, d ++ bs), .ok []) else ((cap, d), .refused)
+  | .unshift bs => if d.length < cap ∧ bs.length ≤ cap - d.length then ((cap, bs ++ d), .ok []) else ((cap, d), .refused)
+  | .pop n => if n ≤ d.length then ((cap, d.take (d.length - n)), .ok (d.drop (d.length - n))) else ((cap, d), .refused)
+  | .shift n => if n ≤ d.length then ((cap, d.drop n), .ok (d.take n)) else ((cap, d), .refused)
+  | .crop pos n => if pos + n ≤ d.length then ((cap, d.take pos ++ d.drop (pos + n)), .ok []) else ((cap, d), .refused)
   | .set pos bs =>
-    if bs.length = 0 then (d, .ok [])
-    else if pos + bs.length ≤ d.length then (d.take pos ++ bs ++ d.drop (pos + bs.length), .ok [])
-    else (d, .refused)
+    if bs.length = 0 then ((cap, d), .ok [])
+    else if pos + bs.length ≤ d.length then ((cap, d.take pos ++ bs ++ d.drop (pos + bs.length)), .ok [])
+    else ((cap, d), .refused)
   | .get pos n =>
-    if n = 0 then (d, .ok [])
-    else if pos + n ≤ d.length then (d, .ok ((d.drop pos).take n)) else (d, .refused)
+    if n = 0 then ((cap, d), .ok [])
+    else if pos + n ≤ d.length then ((cap, d), .ok ((d.drop pos).take n)) else ((cap, d), .refused)
+  | .align _ => ((cap, d), .ok [])
+  | .resize n => ((n, d.drop (d.length - n)), .ok [])
+  | .string => if d.length < cap then ((cap, d), .ok d) else ((cap, d), .refused)
 
 theorem setSrc_some (bs : List Byte) : setSrc bs.length (some bs) = bs := by
   unfold setSrc; simp
 
-/-- **One step**: on every well-formed ring, every operation of the model (i) keeps the ring well-formed and
-    its capacity, (ii) changes the denoted content exactly as the plain deque operation does, (iii) returns
+/-- **One step**: on every well-formed ring, every operation of the model (i) keeps the ring well-formed,
+    (ii) changes capacity and denoted content exactly as the plain deque operation does, (iii) returns
     the deque's bytes / refuses exactly when the deque refuses, (iv) never leaves the storage (`Out.bad`
     is impossible because the deque never produces it). -/
 theorem step_refines (r : Ring) (h : r.WF) (op : Op) :
-    (stepM r op).1.WF ∧ (stepM r op).1.store.length = r.store.length ∧
-    ((stepM r op).1.content, (stepM r op).2) = stepS r.store.length r.content op := by
+    (stepM r op).1.WF ∧
+    (((stepM r op).1.store.length, (stepM r op).1.content), (stepM r op).2) = stepS r.store.length r.content op := by
   have hcl := content_length r h.1 h.2
   have h1 : r.len ≤ r.store.length := h.1
   have h2 : r.off ≤ r.store.length := h.2
@@ -86,38 +100,38 @@ theorem step_refines (r : Ring) (h : r.WF) (op : Op) :
     by_cases hc : r.len < r.store.length ∧ bs.length ≤ r.store.length - r.len
     · obtain ⟨r', c, he, hw, hl, hcn⟩ := qpush_ok r h bs.length (some bs) hc.1 hc.2
       rw [he, hcl, if_pos hc, hcn, setSrc_some]
-      exact ⟨hw, hl, rfl⟩
+      exact ⟨hw, by rw [hl]⟩
     · rw [qpush_refused r h bs.length (some bs) (by omega), hcl, if_neg hc]
-      exact ⟨h, rfl, rfl⟩
+      exact ⟨h, rfl⟩
   | unshift bs =>
     simp only [stepM, stepS]
     by_cases hc : r.len < r.store.length ∧ bs.length ≤ r.store.length - r.len
     · obtain ⟨r', c, he, hw, hl, hcn⟩ := qunshift_ok r h bs.length (some bs) hc.1 hc.2
       rw [he, hcl, if_pos hc, hcn, setSrc_some]
-      exact ⟨hw, hl, rfl⟩
+      exact ⟨hw, by rw [hl]⟩
     · rw [qunshift_refused r h bs.length (some bs) (by omega), hcl, if_neg hc]
-      exact ⟨h, rfl, rfl⟩
+      exact ⟨h, rfl⟩
   | pop n =>
     simp only [stepM, stepS]
     obtain ⟨hok, hno⟩ := qpop_spec r h n true
     by_cases hc : n ≤ r.len
     · rcases hok hc with he | ⟨hf, _⟩
       · rw [he, hcl, if_pos hc]
-        refine ⟨⟨by simp only []; omega, h.2⟩, rfl, ?_⟩
+        refine ⟨⟨by simp only []; omega, h.2⟩, ?_⟩
         rw [content_take r (r.len - n) (by omega)]
       · cases hf
     · rw [hno (by omega), hcl, if_neg hc]
-      exact ⟨h, rfl, rfl⟩
+      exact ⟨h, rfl⟩
   | shift n =>
     simp only [stepM, stepS]
     obtain ⟨hok, hno⟩ := qshift_spec r h n true
     by_cases hc : n ≤ r.len
     · rcases hok hc with ⟨r', he, hw, hs, hl, hcn⟩ | ⟨hf, _⟩
       · rw [he, hcl, if_pos hc, hcn]
-        exact ⟨hw, by rw [hs], rfl⟩
+        exact ⟨hw, by rw [hs]⟩
       · cases hf
     · rw [hno (by omega), hcl, if_neg hc]
-      exact ⟨h, rfl, rfl⟩
+      exact ⟨h, rfl⟩
   | crop pos n =>
     simp only [stepM, stepS]
     by_cases hc : pos + n ≤ r.len
@@ -125,97 +139,135 @@ theorem step_refines (r : Ring) (h : r.WF) (op : Op) :
       · subst hp
         obtain ⟨r', c, he, hw, hs, hl, hcn⟩ := crop_front r h n (by omega)
         rw [he, hcl, if_pos hc, hcn]
-        refine ⟨hw, by rw [hs], ?_⟩
-        simp
+        refine ⟨hw, ?_⟩
+        rw [hs]; simp
       · obtain ⟨r', c, he, hw, hs, ho, hl, hcn⟩ := crop_mid r h pos n hp hc
         rw [he, hcl, if_pos hc, hcn]
-        exact ⟨hw, hs, rfl⟩
+        exact ⟨hw, by rw [hs]⟩
     · rw [crop_refused r h pos n (by omega), hcl, if_neg hc]
-      exact ⟨h, rfl, rfl⟩
+      exact ⟨h, rfl⟩
   | set pos bs =>
     simp only [stepM, stepS]
     by_cases h0 : bs.length = 0
     · rw [if_pos h0]
       unfold Ring.set
       rw [if_pos h0]
-      exact ⟨h, rfl, rfl⟩
+      exact ⟨h, rfl⟩
     · rw [if_neg h0]
       by_cases hc : pos + bs.length ≤ r.len
       · obtain ⟨r', c, he, hw, hs, ho, hl, hcn⟩ := set_ok r h pos bs.length (some bs) (by omega) hc
         rw [he, hcl, if_pos hc, hcn, setSrc_some]
-        exact ⟨hw, hs, rfl⟩
+        exact ⟨hw, by rw [hs]⟩
       · rw [hcl, if_neg hc]
         rcases set_refused r h pos bs.length (some bs) (by omega) (by omega) with he | he <;> rw [he] <;>
-          exact ⟨h, rfl, rfl⟩
+          exact ⟨h, rfl⟩
   | get pos n =>
     simp only [stepM, stepS]
     by_cases h0 : n = 0
     · rw [if_pos h0]
       unfold Ring.get
       rw [if_pos h0]
-      exact ⟨h, rfl, rfl⟩
+      exact ⟨h, rfl⟩
     · rw [if_neg h0]
       by_cases hc : pos + n ≤ r.len
       · obtain ⟨c, he⟩ := get_ok r h pos n (by omega) hc
         rw [he, hcl, if_pos hc]
-        exact ⟨h, rfl, rfl⟩
+        exact ⟨h, rfl⟩
       · rw [get_refused r h pos n true (by omega) (by omega), hcl, if_neg hc]
-        exact ⟨h, rfl, rfl⟩
+        exact ⟨h, rfl⟩
+  | align pos =>
+    simp only [stepM, stepS]
+    obtain ⟨r1, he, hw, hl, hs, hc, _⟩ := align_spec r h pos
+    rw [he, hc, hs]
+    exact ⟨hw, rfl⟩
+  | resize n =>
+    simp only [stepM, stepS]
+    obtain ⟨r1, he, hw, hs, hc⟩ := resize_spec r h n
+    rw [he, hc, hs, hcl]
+    exact ⟨hw, rfl⟩
+  | string =>
+    simp only [stepM, stepS]
+    by_cases hc : r.len < r.store.length
+    · obtain ⟨r1, he, hw, hs, hcn⟩ := string_spec r h hc
+      rw [he, hcl, if_pos hc, hcn, hs]
+      exact ⟨hw, rfl⟩
+    · rw [hcl, if_neg hc]
+      unfold Ring.string
+      simp only [Ring.max]
+      rw [if_pos (by omega)]
+      exact ⟨h, rfl⟩
 
 /-- run a history on the model / on the spec, collecting the outcomes -/
 def runM (r : Ring) : List Op → Ring × List Out
   | [] => (r, [])
   | op :: ops => let (r1, o) := stepM r op; let (r2, os) := runM r1 ops; (r2, o :: os)
 
-def runS (cap : Nat) (d : List Byte) : List Op → List Byte × List Out
-  | [] => (d, [])
-  | op :: ops => let (d1, o) := stepS cap d op; let (d2, os) := runS cap d1 ops; (d2, o :: os)
+def runS (cap : Nat) (d : List Byte) : List Op → (Nat × List Byte) × List Out
+  | [] => ((cap, d), [])
+  | op :: ops => let (cd, o) := stepS cap d op; let (cd2, os) := runS cd.1 cd.2 ops; (cd2, o :: os)
 
 /-- **Deque refinement for all histories**: from any well-formed ring (any capacity, offset, fill —
-    wrapped or not) and for any finite sequence of operations, the model ends with exactly the content
-    the plain byte deque holds after the same operations, and every operation returned exactly the
-    deque's bytes / verdicts (in particular no `Out.bad`: no access left the storage). -/
+    wrapped or not) and for any finite sequence of operations (push/unshift/pop/shift/crop/set/get/
+    align/resize/string with any operands), the model ends with exactly the capacity and content the
+    plain byte deque holds after the same operations, and every operation returned exactly the deque's
+    bytes / verdicts (in particular no `Out.bad`: no access left the storage). -/
 theorem deque_refinement (ops : List Op) (r : Ring) (h : r.WF) :
-    (runM r ops).1.WF ∧ (runM r ops).1.store.length = r.store.length ∧
-    ((runM r ops).1.content, (runM r ops).2) = runS r.store.length r.content ops := by
+    (runM r ops).1.WF ∧
+    (((runM r ops).1.store.length, (runM r ops).1.content), (runM r ops).2) = runS r.store.length r.content ops := by
   induction ops generalizing r with
-  | nil => exact ⟨h, rfl, rfl⟩
+  | nil => exact ⟨h, rfl⟩
   | cons op ops ih =>
-    obtain ⟨hw, hl, he⟩ := step_refines r h op
-    obtain ⟨hw2, hl2, he2⟩ := ih (stepM r op).1 hw
+    obtain ⟨hw, he⟩ := step_refines r h op
+    obtain ⟨hw2, he2⟩ := ih (stepM r op).1 hw
     unfold runM runS
-    have e1 : (stepS r.store.length r.content op).1 = (stepM r op).1.content := by rw [← he]
-    have e2 : (stepS r.store.length r.content op).2 = (stepM r op).2 := by rw [← he]
     simp only []
-    rw [e1, e2, ← hl, ← he2]
-    exact ⟨hw2, by rw [hl2], rfl⟩
+    rw [← he]
+    simp only []
+    rw [← he2]
+    exact ⟨hw2, rfl⟩
 
 /-- refused operations leave the content unchanged (corollary, stated on its own because the property
     names it) -/
 theorem refusal_pure (r : Ring) (h : r.WF) (op : Op) (hr : (stepM r op).2 = .refused) :
     (stepM r op).1.content = r.content := by
-  obtain ⟨_, _, he⟩ := step_refines r h op
-  have e1 : (stepS r.store.length r.content op).1 = (stepM r op).1.content := by rw [← he]
+  obtain ⟨_, he⟩ := step_refines r h op
+  have e1 : (stepS r.store.length r.content op).1.2 = (stepM r op).1.content := by rw [← he]
   have e2 : (stepS r.store.length r.content op).2 = (stepM r op).2 := by rw [← he]
   rw [hr] at e2
   rw [← e1]
-  cases op <;> simp only [stepS] at e2 ⊢ <;> (repeat' split at e2) <;> first | (cases e2; done) | (simp_all; done) | (split <;> simp_all)
+  cases op <;> simp only [stepS] at e2 ⊢ <;> (repeat' split at e2) <;>
+    first | (cases e2; done) | (simp_all; done) | (split <;> simp_all)
 
-/-- no access of the model leaves the storage, for any history -/
-theorem in_bounds (ops : List Op) (r : Ring) (h : r.WF) : Out.bad ∉ (runM r ops).2 := by
-  have e2 : (runS r.store.length r.content ops).2 = (runM r ops).2 := by
-    rw [← (deque_refinement ops r h).2.2]
-  rw [← e2]
-  generalize r.content = d
-  generalize r.store.length = cap
-  clear e2 h
-  induction ops generalizing d with
+theorem runS_no_bad (ops : List Op) (cap : Nat) (d : List Byte) : Out.bad ∉ (runS cap d ops).2 := by
+  induction ops generalizing cap d with
   | nil => simp [runS]
   | cons op ops ih =>
     unfold runS
     simp only [List.mem_cons, not_or]
-    refine ⟨?_, ih _⟩
+    refine ⟨?_, ih _ _⟩
     cases op <;> simp only [stepS] <;> (repeat' split) <;> simp
+
+/-- no access of the model leaves the storage, for any history -/
+theorem in_bounds (ops : List Op) (r : Ring) (h : r.WF) : Out.bad ∉ (runM r ops).2 := by
+  have e2 : (runS r.store.length r.content ops).2 = (runM r ops).2 := by
+    rw [← (deque_refinement ops r h).2]
+  rw [← e2]
+  exact runS_no_bad ops _ _
+
+/-- `mpt_queue_prepare(n)`: afterwards at least `n` bytes are free and the content is unchanged -/
+theorem prepare_keeps_content (r : Ring) (h : r.WF) (n : Nat) :
+    ∃ r' left, r.prepare n = .ok (r', left) ∧ r'.WF ∧ r'.content = r.content ∧
+      left = r'.store.length - r'.len ∧ n ≤ left :=
+  let ⟨r', left, he, hw, hc, hl, hn, _⟩ := prepare_spec r h n
+  ⟨r', left, he, hw, hc, hl, hn⟩
+
+/-- `mpt_memrev` (block swaps until one side fits the 1024-byte temporary) is a rotation, for all sizes -/
+theorem memrev_rotate (s : List Byte) (pos pre len : Nat) (hp : pre ≤ len) (h : pos + len ≤ s.length) :
+    ∃ s', Ring.memrev s pos pre len = .ok s' ∧ s'.length = s.length ∧
+      ∀ i, s'[i]? = if pos ≤ i ∧ i < pos + (len - pre) then s[i + pre]?
+                   else if pos + (len - pre) ≤ i ∧ i < pos + (len - pre) + pre then s[i - (len - pre)]? else s[i]? :=
+  let ⟨s', he, hl, hs⟩ := memrev_spec s pos pre len hp h
+  ⟨s', he, hl, hs⟩
 
 -- non-vacuity: a wrapped ring (capacity 4, offset 3, content "abc" = 1 byte at the end + 2 at the start)
 example : (Ring.make 4 3 [97, 98, 99]).WF ∧ (Ring.make 4 3 [97, 98, 99]).content = [97, 98, 99]
@@ -226,16 +278,13 @@ example : (runM (Ring.make 4 3 [97, 98, 99]) [.crop 1 1, .push [100, 101], .pop 
 
 /-! ### Stated, not proved (tied to the code by the correspondence run only) -/
 
-/-- re-aligning keeps the content -/
-def align_statement : Prop :=
-  ∀ (r : Ring) (pos : Nat), r.WF → ∃ r', r.align pos = .ok r' ∧ r'.WF ∧ r'.content = r.content
-/-- growing keeps the content, shrinking keeps the last `n` bytes -/
-def resize_statement : Prop :=
-  ∀ (r : Ring) (n : Nat), r.WF → ∃ r', r.resize n = .ok r' ∧ r'.WF ∧ r'.store.length = n ∧
-    r'.content = r.content.drop (r.len - n)
-/-- the zero-terminated view returns the content and keeps it -/
-def string_statement : Prop :=
-  ∀ (r : Ring), r.WF → r.len < r.store.length →
-    ∃ r', r.string = .ok (r', r.content) ∧ r'.WF ∧ r'.content = r.content
+/-- `mpt_queue_find` returns the first element-aligned match, or refuses when an element straddles the wrap -/
+def find_statement : Prop :=
+  ∀ (r : Ring) (needle : List Byte), r.WF → needle ≠ [] →
+    match r.find needle with
+    | .ok (some a) => (Mem.read r.store a needle.length = needle)
+    | .ok none => ∀ k, (k + 1) * needle.length ≤ r.len → (r.content.drop (k * needle.length)).take needle.length ≠ needle
+    | .null => True
+    | _ => False
 
 end Mpt.C13
